@@ -19,4 +19,13 @@ Metric(cell) ==
         <<FMul(FMul(a, b), cg), FMul(b, b), FMul(FMul(b, c), ca)>>,
         <<FMul(FMul(a, c), cb), FMul(FMul(b, c), ca), FMul(c, c)>> >>
 CellVolume(cell) == FSqrt(Det3(Metric(cell)))
+\* ---- reciprocal metric: 1/d^2 = h^T G^-1 h  with  G^-1 = adj(G)/det(G)
+Cof(m, i, j) == LET r == IF i = 1 THEN <<2, 3>> ELSE IF i = 2 THEN <<1, 3>> ELSE <<1, 2>>
+                    c == IF j = 1 THEN <<2, 3>> ELSE IF j = 2 THEN <<1, 3>> ELSE <<1, 2>>
+                    minor == FSub(FMul(m[r[1]][c[1]], m[r[2]][c[2]]), FMul(m[r[1]][c[2]], m[r[2]][c[1]]))
+                IN IF (i + j) % 2 = 0 THEN minor ELSE FNeg(minor)
+InvD2(cell, hkl) == LET G == Metric(cell)
+                        hv == <<FI(hkl[1]), FI(hkl[2]), FI(hkl[3])>>
+                    IN FDiv(FSum([n \in 1..9 |-> LET i == ((n - 1) \div 3) + 1 j == ((n - 1) % 3) + 1 IN FMul(FMul(hv[i], hv[j]), Cof(G, i, j))]), Det3(G))
+DSpacing(cell, hkl) == FDiv(One, FSqrt(InvD2(cell, hkl)))
 =============================================================================
